@@ -105,6 +105,8 @@ class WriterOracles(Oracles):
             if b is not None and all(x is not None for x in b):
                 return bytes(b).decode("utf-8", "replace")
         if isinstance(v, Opaque):
+            if "formatted" in v.tags:
+                return v.info.get("text", "")
             if "json-value" in v.tags:
                 return '{"v":[1,"x"]}'
             if "dna-text" in v.tags:
@@ -160,6 +162,11 @@ class WriterOracles(Oracles):
                 else:
                     parts.append(("arg", argv[p[1]] if p[1] < len(argv) else FmtArg("?", Opaque("?"))))
             return FmtArgs(parts)
+        if path in ("std::fmt::format", "core::fmt::format", "alloc::fmt::format") and len(args) == 1 and isinstance(args[0], FmtArgs):
+            txt = ""
+            for p_ in args[0].parts:
+                txt += p_[1] if p_[0] == "lit" else self.render_arg(it, p_[1])
+            return Opaque("std::string::String", {"formatted"}, {"text": txt})
         if name == "write_fmt" and (tr.endswith("io::Write") or tr.endswith("fmt::Write")):
             fa = args[1]
             if isinstance(fa, FmtArgs):
@@ -226,7 +233,13 @@ class ExportOracles(WriterOracles):
                 return Opaque("serde_json::Value", {"json-value"})
             if "tag-fn" in f.tags:
                 return Opaque("String", {"tag-string"})
-        if path.startswith("serde_json::Map") and name == "iter":
+        if path.startswith("serde_json::Value") and name in ("as_object", "as_object_mut") and len(args) == 1 and isinstance(args[0], Ref):
+            v_ = it.read(args[0].cell, args[0].path)
+            if isinstance(v_, Adt) and v_.variant is not None:
+                if v_.variant == 5:
+                    return some(Ref(args[0].cell, tuple(args[0].path) + (("f", 0),)))
+                return none()
+        if (path.startswith("serde_json::Map") and name == "iter") or (name == "into_iter" and args and isinstance(recv(it, args[0]), Opaque) and "map" in recv(it, args[0]).tags):
             m = recv(it, args[0])
             k = m.info.get("entries", 0) if isinstance(m, Opaque) else 0
             items = [Tup([Ref(Cell(Opaque("String", {"map-key"}), "k")), Ref(Cell(Opaque("serde_json::Value", {"json-value"}), "v"))]) for _ in range(k)]
